@@ -98,7 +98,7 @@ def k8(spec_repr, v):
         if isinstance(x, dict):
             return any(big(y) for y in x.values())
         return False
-    return "Number(" in spec_repr and big(v)
+    return ("Number(" in spec_repr or "'k': 'Number'" in spec_repr or "'number'" in spec_repr or '"number"' in spec_repr) and big(v)
 
 
 def zero_multiple(spec):
@@ -144,7 +144,7 @@ def run(tier, seed, replay=None):
             else:
                 stats["other"][kind] = stats["other"].get(kind, 0) + 1
                 fid = None
-                if kind == "OverflowError" and k8(r, v) and "too large to convert to float" in (detail or ""):
+                if kind == "OverflowError" and k8(r + repr(doc), v) and "too large to convert to float" in (detail or ""):
                     fid = "C10-K8"
                     stats["k8_inputs"] += 1
                 res.violation({"property": "C10", "kind": "oracle", "finding": fid, "doc": doc, "value": v if len(repr(v)) < 2000 else repr(v)[:200],
@@ -198,7 +198,7 @@ def run(tier, seed, replay=None):
             stats["calls"] += 1
             if kind in ("ok", "ValidationError", "TypeError"):
                 stats[kind] += 1
-            elif not (kind == "OverflowError" and k8(repr(e), v)):
+            elif not (kind == "OverflowError" and k8(repr(e) + repr(s), v)):
                 res.violation({"property": "C10", "kind": "oracle", "schema": s if len(repr(s)) < 3000 else repr(s)[:300], "value": repr(v)[:200],
                                "what": "calling the parsed element raised %s (%s)" % (kind, detail)})
     sys.setrecursionlimit(old_limit)
